@@ -274,7 +274,7 @@ def history_cases(draw):
         if draw(st.integers(0, 3)) == 0:
             # ("reused-after": the caller goes on using the array it passed - e.g. fills it with the next vector to try - while the
             # regressor keeps answering for the vector it was given)
-            ops.append({"op": "switch", "theta": draw(st.integers(0, 1)), "how": draw(st.sampled_from(["fresh", "shared", "reused-after"]))})
+            ops.append({"op": "switch", "theta": draw(st.integers(0, 1)), "how": draw(st.sampled_from(["fresh", "shared", "reused-after", "failing", "failing"]))})
         else:
             ops.append({"op": draw(st.sampled_from(["call", "posterior", "mean"])), "set": draw(st.integers(0, len(sets) - 1)),
                         "how": draw(st.sampled_from(["fresh", "shared", "shared"]))})
@@ -318,6 +318,22 @@ def body_history(case, ctx):
     for step, op in enumerate(case["ops"]):
         with np.errstate(all="ignore"), warnings.catch_warnings():
             warnings.simplefilter("ignore")
+            if op["op"] == "switch" and op.get("how") == "failing":
+                # a vector the regressor cannot take (log-amplitude -400: the data covariance underflows to zero and has no Cholesky
+                # factor): the call raises, and the regressor goes on answering for the vector it held before
+                bad = np.concatenate(thetas[held]).copy()
+                nm = len(thetas[held][0])
+                for j, role in enumerate(rk.param_roles(spec, n, d)):
+                    if role in ("amp", "noise"):
+                        bad[nm + j] = -400.0
+                if case["noise"] == "none":
+                    try:
+                        gp.set_hyperparameters(bad)
+                    except (np.linalg.LinAlgError, ValueError):
+                        ctx.event("a set_hyperparameters call that raised")
+                    else:
+                        gp.set_hyperparameters(np.concatenate(thetas[held]).copy())      # (it was taken after all: back to the held vector)
+                continue
             if op["op"] == "switch":
                 new = np.concatenate(thetas[op["theta"]])
                 if op["how"] == "shared":
